@@ -96,6 +96,8 @@ def case_strategy():
             fia = {k: draw(VAL[t]) for k, (t, req) in MODEL[first].items() if req or draw(st.booleans())}
             change = {"first": first, "first_init_args": fia, "how": draw(st.sampled_from(["argv-argv", "cfg-argv"]))}
             pos = "m"
+        if kind == "valid" and pos == "holder.inner" and draw(st.booleans()):
+            kind = "nested_two_sources"
         if kind == "valid" and pos == "dct" and draw(st.booleans()):
             # the same entry built from two sources: the class (and some init_args) first, then an init_args-only short form
             kind = "two_sources"
@@ -245,6 +247,8 @@ def run_case(ctx, case):
         return run_class_change(ctx, case, p)
     if kind == "two_sources":
         return run_two_sources(ctx, case, p)
+    if kind == "nested_two_sources":
+        return run_nested_two_sources(ctx, case, p)
     expect_ok = kind in ("valid", "dict_kwargs", "factory")
     use_notation = pos == "m"
     try:
@@ -381,6 +385,63 @@ def run_two_sources(ctx, case, p):
             ctx.finding("C14/two-sources/instance-of-wrong-class", {"key": key, "expected": cls, "got": type(init.dct[key]).__name__})
 
 
+def run_nested_two_sources(ctx, case, p):
+    """Holder(inner: Base): an earlier source names the nested class (and some init_args), a later source refines the nested
+    parameter in short form (init_args only); the nested object must be of the class named earlier with the arguments of both"""
+    from jsonargparse import ArgumentError
+
+    ctx.mark_nontrivial()
+    cp, ia = case["class_path"], case["init_args"]
+    keys = sorted(ia)
+    early = {k: ia[k] for k in keys[: len(keys) // 2]}
+    late = {k: ia[k] for k in keys[len(keys) // 2:]}
+    for k, (t, r) in MODEL[case["cls"]].items():
+        if r and k in late:
+            early[k] = late.pop(k)
+    if any(v == "null" for v in ia.values()):
+        return  # (F23c territory)
+    if case["notation"] == "dotted" and any(v is None for v in late.values()):
+        ctx.exclude("None for a twice-nested dotted sub-option (its 'null' spelling is not loaded at that depth: observed, outside this scenario)")
+        return
+    first = {"holder": {"class_path": M + "Holder", "init_args": {"inner": {"class_path": cp, "init_args": early}}}}
+    second = {"holder": {"init_args": {"inner": {"init_args": late}}}}
+    how = case["notation"]
+    try:
+        if how in ("explicit_obj", "cfg_then_argv"):
+            cfg = p.parse_args(["--cfg", json.dumps(first), "--cfg", json.dumps(second)])
+        elif how == "explicit_argv":
+            cfg = p.parse_args(["--cfg", json.dumps(first), "--holder", json.dumps(second["holder"])])
+        elif how == "short_name":
+            cfg = p.parse_args(["--cfg", json.dumps(first), "--holder.inner", json.dumps({"init_args": late})])
+        elif how == "dotted":
+            cfg = p.parse_args(["--cfg", json.dumps(first)] + [f"--holder.init_args.inner.init_args.{k}={raw(v)}" for k, v in late.items()])
+        else:
+            cfg = p.parse_object(second, cfg_base=p.parse_object(first))
+    except ArgumentError as ex:
+        ctx.finding(f"C14/nested-two-sources/valid-refinement-rejected/{how}", {"error": short(str(ex), 300), "first": first, "second": second})
+        return
+    except Exception as ex:  # noqa
+        ctx.cls(f"escape (C03): {type(ex).__name__}")
+        return
+    spec = cfg.holder.init_args.inner
+    if not spec.class_path.endswith("." + case["cls"]):
+        ctx.finding(f"C14/nested-two-sources/nested-class-lost/{how}", {"expected": case["cls"], "got": spec.class_path})
+        return
+    have = spec.get("init_args")
+    for k, v in expected_kwargs(case).items():
+        if have is None or have.get(k) != v:
+            ctx.finding(f"C14/nested-two-sources/init_arg-lost/{how}", {"param": k, "expected": v, "have": short(have, 200)})
+            return
+    del FAM.LOG[:]
+    try:
+        init = p.instantiate_classes(cfg)
+    except Exception as ex:  # noqa
+        ctx.finding(f"C14/nested-two-sources/instantiation-raises:{type(ex).__name__}", {"error": fmt_exc(ex)})
+        return
+    if type(init.holder.inner).__name__ != case["cls"] or [e[1] for e in FAM.LOG][-1] != "Holder":
+        ctx.finding("C14/nested-two-sources/wrong-nested-object-or-order", {"inner": type(init.holder.inner).__name__, "order": [e[1] for e in FAM.LOG]})
+
+
 def run_class_change(ctx, case, p):
     from jsonargparse import ArgumentError
 
@@ -448,7 +509,7 @@ def run_shard(spec, ctx):
 
 def health(tier, evaluations, nontrivial, classes):
     msgs = []
-    for c in ["kind:" + k for k in ("valid", "wrongclass", "unknown_arg", "bad_type", "missing_req", "dict_kwargs", "factory", "class_change", "two_sources")] + ["pos:holder.table", "pos:uni", "pos:lst"]:
+    for c in ["kind:" + k for k in ("valid", "wrongclass", "unknown_arg", "bad_type", "missing_req", "dict_kwargs", "factory", "class_change", "two_sources", "nested_two_sources")] + ["pos:holder.table", "pos:uni", "pos:lst"]:
         if classes.get(c, 0) < 15:
             msgs.append(f"class {c} nearly absent ({classes.get(c, 0)})")
     return msgs
